@@ -163,7 +163,7 @@ func C09(c *core.Ctx) {
 	if !collect("MC_RenderDocs", "SPECIFICATION RSpec\nCHECK_DEADLOCK FALSE\n", "doc", func(m map[string]interface{}) { addDoc("render:"+asStr(m["n"]), yamlOf(m["d"])) }) {
 		return
 	}
-	if !collect("MC_Merge", "SPECIFICATION Spec\nCONSTANTS Triples = FALSE\nINVARIANTS Laws\nCHECK_DEADLOCK FALSE\n", "cs", func(m map[string]interface{}) {
+	if !collect("MC_Merge", "SPECIFICATION Spec\nCONSTANTS Triples = FALSE\n Cross = FALSE\nINVARIANTS Laws\nCHECK_DEADLOCK FALSE\n", "cs", func(m map[string]interface{}) {
 		addDoc("merge:"+asStr(m["attr"]), yamlOf(m["base"]))
 		addDoc("merge:"+asStr(m["attr"]), yamlOf(m["target"]))
 	}) {
